@@ -120,6 +120,20 @@ def w_c12(idx):
     return n, out
 
 
+def replay_ops_only(key):
+    """Replay the access path without requiring that the real state follows the model: C18 asks what is_equal
+    answers after these edits, whatever they did."""
+    ik, path = G["access"][key]
+    w = build_with_atoms(G["states"][ik])
+    ops = []
+    for (op, tk) in path:
+        ok, ret, exc = w.apply(op["name"], op["args"])
+        ops.append(op)
+        if not ok:
+            return None, ops, ik
+    return w, ops, ik
+
+
 def w_c18(idx):
     out, n, npairs = [], 0, 0
     for i in idx:
@@ -127,8 +141,8 @@ def w_c18(idx):
         key = canon(e["st"])
         if key not in G["access"]:
             continue
-        w, ops, ik = replay_to(key)
-        if w is None:
+        w, ops, ik = replay_ops_only(key)
+        if w is None or len(w.nodes) != len(e["st"]["kids"]):
             continue
         before = w.pi(ALLF)
         eq = {tuple(p) for p in e["eq"]}
